@@ -16,6 +16,13 @@ def step (t : List String) : String :=
       let ideal := idealSchedule s 5000
       (if strictlyIncreasing ideal then "1 " else "0 ") ++ showDates ideal ++ " | " ++ showDates (mergeEqual ideal)
     | _ => "bad-op"
+  | "CDS" :: rest => match ints? rest with
+    | some [d1, m1, y1, d2, m2, y2, nm, cal, conv, bw] =>
+      let s : SchedSpec := ⟨mkDateS d1 m1 y1, mkDateS d2 m2 y2, nm, decide (bw = 1), true, false, cal, conv⟩
+      if s.effective.serial > s.termination.serial then "E:FinError" else
+      let pay := cdsIdealPayments s 5000
+      (if strictlyIncreasing pay then "1 " else "0 ") ++ showDates pay
+    | _ => "bad-op"
   | _ => "bad-op"
 
 def main : IO Unit := loop step
